@@ -23,6 +23,7 @@ Inductive dec_obs :=
 | DErr
 | DPanic
 | DSame (flags counter : N)        (* accepted, and to_vec() of the result is the input again *)
+| DPrefix (n : N) (flags counter : N)   (* accepted, and to_vec() of the result is the first n bytes of the input *)
 | DVal (hash : bytes) (flags counter : N)
        (acd : option (bytes * bytes * bytes))                      (* aaguid, id, key.to_vec() *)
        (ext : option bytes) (ext_float : bool).                    (* extensions re-serialised; does it contain a float *)
@@ -32,6 +33,7 @@ Inductive adcase :=
 | CDec (input : bytes) (impl : dec_obs)
 | CCuts (orig : bytes) (impl : list dec_obs)                       (* impl[n] = from_slice (first n bytes), n = 0..len *)
 | CFlips (orig : bytes) (impl : list (N * N * dec_obs))            (* position, new byte, from_slice of the corrupted copy *)
+| CSweep (orig : bytes) (pos : N) (impl : list dec_obs)            (* impl[x] = from_slice of the copy with byte pos := x, x = 0..255 *)
 | CAcdNew (len : N) (impl_ok : bool)
 | CCose (input : bytes) (impl : option (option bytes)).            (* not CBOR | from_cbor_value Err | Ok: to_vec() *)
 
@@ -80,6 +82,9 @@ Definition dec_agree (input : bytes) (o : dec_obs) : bool :=
   | Val ad, DSame fl c =>
       (ad_flags ad =? fl) && opt_eqb N.eqb (ad_counter ad) (Some c)
       && match to_vec ad with Val b => beq b input | _ => false end
+  | Val ad, DPrefix n fl c =>
+      (ad_flags ad =? fl) && opt_eqb N.eqb (ad_counter ad) (Some c)
+      && match to_vec ad with Val b => beq b (firstn (N.to_nat n) input) | _ => false end
   | Val ad, DVal h fl c a e flt =>
       beq (ad_rp_id_hash ad) h && (ad_flags ad =? fl) && opt_eqb N.eqb (ad_counter ad) (Some c)
       && match ad_acd ad, a with
@@ -104,6 +109,17 @@ Fixpoint cuts_all (f : bytes -> dec_obs -> bool) (orig : bytes) (n : nat) (impl 
   | o :: r => f (firstn n orig) o && cuts_all f orig (S n) r
   end.
 
+Fixpoint sweep_all (f : bytes -> dec_obs -> bool) (orig : bytes) (pos : nat) (x : N) (impl : list dec_obs) : bool :=
+  match impl with
+  | [] => true
+  | o :: r => f (set_nth pos x orig) o && sweep_all f orig pos (x + 1) r
+  end.
+
+(** short names for the generated sweeps *)
+Definition dE : dec_obs := DErr.
+Definition dS : N -> N -> dec_obs := DSame.
+Definition dP : N -> N -> N -> dec_obs := DPrefix.
+
 Definition agree (c : adcase) : bool :=
   match c with
   | CEnc h cnt steps impl => enc_agree h cnt steps impl
@@ -111,6 +127,7 @@ Definition agree (c : adcase) : bool :=
   | CCuts orig impl => (length impl =? S (length orig))%nat && cuts_all dec_agree orig 0 impl
   | CFlips orig impl =>
       forallb (fun t => let '(pos, x, o) := t in dec_agree (set_nth (N.to_nat pos) x orig) o) impl
+  | CSweep orig pos impl => (length impl =? 256)%nat && sweep_all dec_agree orig (N.to_nat pos) 0 impl
   | CAcdNew len ok =>
       match acd_new [] (rep 0 len) CNull with
       | Val _ => ok
@@ -199,7 +216,7 @@ Definition dec_oracle (input : bytes) (o : dec_obs) : bool :=
   match o with
   | DPanic => false
   | DErr => true
-  | DSame fl c => negb short && negb reserved && (fl =? fb) && (c =? cnt)
+  | DSame fl c | DPrefix _ fl c => negb short && negb reserved && (fl =? fb) && (c =? cnt)
   | DVal h fl c a e _ =>
       negb short && negb reserved && (fl =? fb) && (c =? cnt) && beq h (firstn 32 input)
       && Bool.eqb (N.testbit fb 6) (match a with Some _ => true | None => false end)
@@ -241,6 +258,7 @@ Definition oracle (c : adcase) : bool :=
       end
   | CFlips orig impl =>
       forallb (fun t => let '(pos, x, o) := t in dec_oracle (set_nth (N.to_nat pos) x orig) o) impl
+  | CSweep orig pos impl => sweep_all dec_oracle orig (N.to_nat pos) 0 impl
   | CAcdNew len ok => Bool.eqb ok (len <=? 65535)
   | CCose _ _ => true                                              (* model correspondence only (third-party coset) *)
   end.
